@@ -67,8 +67,13 @@ the peer application before the peer sees Disconnect" is a property of the peer 
 half connection: `Client::step` / `Server::step` call `receive` after handling the arrived frames of
 EVERY step (`Props/C09.lean`, `C09_flush_gate_*`: the packets `hc.receive` returns are the last events
 before the state changes), so the peer has called `receive` after the data frame and before it can
-process a disconnect request that was transmitted later. Closing this needs a model of two endpoints
-over one network (not built here) together with: (a) frame acknowledgements are genuine — a fragment
+process a disconnect request that was transmitted later. LATER ADDITION (round 7): both halves of this step are now theorems —
+`Props/C09Gate.lean` / `Props/C09GateLater.lean` (gate open, any guarded continuation, then ONE `receive` of the peer half
+connection: every Reliable packet accepted before the gate opened is handed over; no empty-window hypothesis) and
+`Props/C09Peer.lean` / `C09PeerSrv.lean` / `C09PeerSrvTrace.lean` (the peer endpoint dispatches every traffic frame that arrived
+before a Disconnect frame, calls `receive`, reports those packets, then Disconnect); (a) below is `C01_hc_frame_acks_genuine`
+(`Props/C01Hc.lean`, section 6). What is still not a single theorem is their composition in a model of two endpoints
+over one network (not built here). The original note read: closing this needs: (a) frame acknowledgements are genuine — a fragment
 is flagged acknowledged only if `B.handleDataFrame` accepted a frame containing it (not proved
 anywhere; needs a frame-level freshness hypothesis for the 32-bit frame ids, cf. `Props/C01Hc.lean`);
 (b) `receive` hands out every completely received packet whose Reliable predecessors are complete
